@@ -49,3 +49,29 @@ def run(ctx):
         hit = [c for c in d.calls if pred(c)]
         ctx.ob("H3.DROP-PERSISTS", what, bool(hit), "Drop calls %s" % what if hit else "Drop of the shared database does not call %s" % what, d.loc())
     common.truncate_after_sync(ctx, "H4.CHECKPOINT-ORDER", c01.R6_TOLERATED)
+    checkpoint_shortcut(ctx)
+
+
+def checkpoint_shortcut(ctx):
+    """H6 CHECKPOINT-SHORTCUT: Database::checkpoint may return Ok without truncating the log only when the log cannot hold
+    frames that the table files do not: the accepted guards (confirmed by reading, frozen here) are
+      * no WAL object / no file manager (nothing was ever logged through this handle),
+      * ShardedDirtyTracker::is_empty()  (the tracker map has no entry: no page was written since open),
+      * wal.current_offset() > 0 is false (the log is empty).
+    Under the negation of all of them every success path passes Wal::truncate.  Any other shortcut leaves old page images in the
+    log; after unlogged writes (PRAGMA wal = OFF) the next open replays them over newer data."""
+    from paths import cmp_of_call, Assume, success_escapes, assumed_cuts
+    m = ctx.m
+    fs = [f for f in m.fns.values() if f.kind != "closure" and f.id.endswith("<impl database::database::Database>::checkpoint")]
+    if len(fs) != 1:
+        raise CheckError("Database::checkpoint: %d candidates" % len(fs))
+    f = fs[0]
+    A = [call_named("Option::<T>::as_mut", 1, desc="the WAL object / file manager exists", ),
+         call_named("ShardedDirtyTracker::is_empty", False, desc="pages were written since open"),
+         cmp_of_call("Gt", "Wal::current_offset", 0, True, desc="the log holds frames")]
+    ok, esc, info = must_pass(f, lambda c: c.name.endswith("storage::wal::Wal::truncate"), A, nonempty_loops=False)
+    ctx.stat("H6.assumed", len(info["assumed"]))
+    ctx.ob("H6.CHECKPOINT-SHORTCUT", "checkpoint", ok and info["t_sites"] >= 1 and len(info["assumed"]) >= 4,
+           "with a non-empty log every success path truncates it (accepted shortcuts: no WAL, no file manager, tracker empty, log empty)" if ok else
+           "checkpoint can return Ok without truncating a non-empty log through a shortcut that is not one of the accepted guards (%s): the "
+           "stale page images are replayed over newer unlogged writes at the next open" % (describe_path(f, esc[0]) if esc else "no truncate site"), f.loc())
